@@ -137,3 +137,536 @@ Proof.
     rewrite app_nth1 by (rewrite firstn_length; lia).
     apply nth_firstn_lt. lia.
 Qed.
+
+(* ---------- the log: encoding, parsing ---------- *)
+
+Definition ok_rec (r : nat * bytes) : Prop :=
+  (N.of_nat (fst r) < two64)%N /\ (lenN (snd r) < two64)%N.
+
+Definition encs (rs : list (nat * bytes)) : bytes :=
+  concat (map (fun r => enc_rec (fst r) (snd r)) rs).
+
+Definition incomplete (t : bytes) : Prop :=
+  length t < 16 \/ (N.of_nat (length t - 16) < de (firstn 8 (skipn 8 t)))%N.
+
+Lemma enc_rec_length p v : length (enc_rec p v) = 16 + length v.
+Proof. unfold enc_rec. rewrite !app_length, !le64_length. lia. Qed.
+
+Lemma encs_app a b : encs (a ++ b) = encs a ++ encs b.
+Proof. unfold encs. now rewrite map_app, concat_app. Qed.
+
+Lemma encs_cons r rs : encs (r :: rs) = enc_rec (fst r) (snd r) ++ encs rs.
+Proof. reflexivity. Qed.
+
+Lemma firstn_app_exact {A} (a b : list A) n : length a = n -> firstn n (a ++ b) = a.
+Proof. intros <-. now rewrite firstn_app, Nat.sub_diag, firstn_all, firstn_O, app_nil_r. Qed.
+
+Lemma skipn_app_exact {A} (a b : list A) n : length a = n -> skipn n (a ++ b) = b.
+Proof. intros <-. now rewrite skipn_app, skipn_all, Nat.sub_diag. Qed.
+
+Lemma parse_incomplete fuel t : incomplete t -> parse fuel t = [].
+Proof.
+  intros H. destruct fuel as [|f]; [reflexivity|]. cbn [parse].
+  destruct (Nat.ltb_spec (length t) 16) as [|L]; [reflexivity|].
+  destruct H as [H|H]; [lia|].
+  destruct (N.ltb_spec (N.of_nat (length t - 16)) (de (firstn 8 (skipn 8 t)))); [reflexivity|lia].
+Qed.
+
+Lemma parse_step f p v rest :
+  ok_rec (p, v) ->
+  parse (S f) (enc_rec p v ++ rest) = (p, v) :: parse f rest.
+Proof.
+  intros [Hp Hv]. cbn [fst snd] in *. cbn [parse].
+  assert (L : length (enc_rec p v ++ rest) = 16 + length v + length rest)
+    by (rewrite app_length, enc_rec_length; lia).
+  destruct (Nat.ltb_spec (length (enc_rec p v ++ rest)) 16); [lia|].
+  unfold enc_rec in *. rewrite <- !app_assoc.
+  rewrite (firstn_app_exact (le64 (N.of_nat p))) by apply le64_length.
+  rewrite (skipn_app_exact (le64 (N.of_nat p))) by apply le64_length.
+  rewrite (firstn_app_exact (le64 (lenN v))) by apply le64_length.
+  rewrite !de_le64 by assumption.
+  rewrite <- !app_assoc in L. rewrite L.
+  destruct (N.ltb_spec (N.of_nat (16 + length v + length rest - 16)) (lenN v)) as [C|_].
+  { unfold lenN in C. lia. }
+  unfold lenN. rewrite !Nat2N.id.
+  replace (le64 (N.of_nat p) ++ le64 (N.of_nat (length v)) ++ v ++ rest)
+    with ((le64 (N.of_nat p) ++ le64 (N.of_nat (length v))) ++ v ++ rest) by now rewrite <- app_assoc.
+  rewrite (skipn_app_exact (le64 (N.of_nat p) ++ le64 (N.of_nat (length v)))) by (rewrite app_length, !le64_length; reflexivity).
+  rewrite (firstn_app_exact v) by reflexivity.
+  f_equal.
+  replace ((le64 (N.of_nat p) ++ le64 (N.of_nat (length v))) ++ v ++ rest)
+    with (((le64 (N.of_nat p) ++ le64 (N.of_nat (length v))) ++ v) ++ rest) by now rewrite <- !app_assoc.
+  rewrite skipn_app_exact by (rewrite !app_length, !le64_length; lia).
+  reflexivity.
+Qed.
+
+Lemma parse_encs rs : Forall ok_rec rs ->
+  forall t fuel, incomplete t -> length (encs rs ++ t) < fuel -> parse fuel (encs rs ++ t) = rs.
+Proof.
+  induction 1 as [|r rs Hr _ IH]; intros t fuel Ht Hf.
+  - cbn [encs map concat app]. now apply parse_incomplete.
+  - destruct fuel as [|f]; [lia|]. destruct r as [p v]. rewrite encs_cons. cbn [fst snd].
+    rewrite <- app_assoc, parse_step by exact Hr. f_equal. apply IH; [exact Ht|].
+    rewrite encs_cons in Hf. cbn [fst snd] in Hf. rewrite <- app_assoc, app_length, enc_rec_length in Hf. lia.
+Qed.
+
+Lemma records_encs rs t : Forall ok_rec rs -> incomplete t -> records (encs rs ++ t) = rs.
+Proof. intros H Ht. unfold records. apply parse_encs; [exact H|exact Ht|lia]. Qed.
+
+Lemma incomplete_nil : incomplete [].
+Proof. left. cbn. lia. Qed.
+
+Lemma prefix_incomplete p v m : ok_rec (p, v) -> m < length (enc_rec p v) -> incomplete (firstn m (enc_rec p v)).
+Proof.
+  intros [_ Hv] Hm. cbn [snd] in Hv. rewrite enc_rec_length in Hm. unfold incomplete.
+  rewrite firstn_length, enc_rec_length.
+  destruct (Nat.ltb_spec m 16) as [L|L]; [left; lia|right].
+  replace (Nat.min m (16 + length v)) with m by lia.
+  unfold enc_rec.
+  (* the first 16 bytes are intact *)
+  replace m with (8 + (8 + (m - 16))) at 2 by lia.
+  rewrite (firstn_app (8 + (8 + (m - 16)))), le64_length.
+  rewrite (firstn_all2 (le64 (N.of_nat p))) by (rewrite le64_length; lia).
+  rewrite (skipn_app_exact (le64 (N.of_nat p))) by apply le64_length.
+  replace (8 + (8 + (m - 16)) - 8) with (8 + (m - 16)) by lia.
+  rewrite firstn_app, le64_length.
+  rewrite (firstn_all2 (le64 (lenN v))) by (rewrite le64_length; lia).
+  rewrite (firstn_app_exact (le64 (lenN v))) by apply le64_length.
+  rewrite de_le64 by exact Hv. unfold lenN. lia.
+Qed.
+
+(* ---------- crash states of one logging sequence ---------- *)
+
+Lemma run_calls_app st a b : run_calls st (a ++ b) = run_calls (run_calls st a) b.
+Proof. unfold run_calls. apply fold_left_app. Qed.
+
+Lemma crash_app st a b k j :
+  crash st (a ++ b) k j =
+  if Nat.ltb k (length a) then crash st a k j else crash (run_calls st a) b (k - length a) j.
+Proof.
+  unfold crash. destruct (Nat.ltb_spec k (length a)) as [H|H].
+  - rewrite firstn_app. replace (k - length a) with 0 by lia. cbn [firstn]. rewrite app_nil_r.
+    rewrite nth_error_app1 by exact H. reflexivity.
+  - rewrite firstn_app, (firstn_all2 a) by lia. rewrite run_calls_app.
+    rewrite nth_error_app2 by exact H. reflexivity.
+Qed.
+
+Lemma crash_all st cs k j : length cs <= k -> crash st cs k j = run_calls st cs.
+Proof.
+  intros H. unfold crash. rewrite firstn_all2 by exact H.
+  destruct (nth_error cs k) eqn:E; [|reflexivity].
+  exfalso. assert (N : nth_error cs k <> None) by congruence. apply nth_error_Some in N. lia.
+Qed.
+
+Lemma firstn_min_len {A} (l : list A) j : firstn (Nat.min j (length l)) l = firstn j l.
+Proof.
+  destruct (Nat.le_ge_cases j (length l)).
+  - now replace (Nat.min j (length l)) with j by lia.
+  - replace (Nat.min j (length l)) with (length l) by lia. now rewrite firstn_all, firstn_all2.
+Qed.
+
+Lemma log_done st p v :
+  run_calls st (log_calls p v) = {| data := data st; wal := wal st ++ enc_rec p v |}.
+Proof. unfold run_calls, log_calls, enc_rec. cbn [fold_left apply_sys data wal]. now rewrite <- !app_assoc. Qed.
+
+Lemma firstn_app_len {A} (a b : list A) n x : length a = n -> firstn (n + x) (a ++ b) = a ++ firstn x b.
+Proof. intros <-. apply firstn_app_2. Qed.
+
+Lemma firstn_short {A} (a b : list A) j : firstn (Nat.min j (length a)) (a ++ b) = firstn j a.
+Proof.
+  rewrite firstn_app. replace (Nat.min j (length a) - length a) with 0 by lia. cbn [firstn].
+  rewrite app_nil_r. apply firstn_min_len.
+Qed.
+
+Lemma log_crash st p v k j : k < 3 ->
+  exists m, crash st (log_calls p v) k j = {| data := data st; wal := wal st ++ firstn m (enc_rec p v) |}.
+Proof.
+  intros Hk. unfold crash, log_calls, enc_rec.
+  pose proof (le64_length (N.of_nat p)) as L1. pose proof (le64_length (lenN v)) as L2.
+  destruct k as [|[|[|k]]]; [| | |lia]; cbn [firstn nth_error run_calls fold_left apply_sys apply_torn data wal].
+  - exists (Nat.min j (length (le64 (N.of_nat p)))). now rewrite firstn_short.
+  - exists (8 + Nat.min j (length (le64 (lenN v)))). rewrite <- app_assoc. do 2 f_equal.
+    rewrite (firstn_app_len (le64 (N.of_nat p))) by exact L1. f_equal. now rewrite firstn_short.
+  - exists (8 + (8 + Nat.min j (length v))). rewrite <- !app_assoc. do 2 f_equal.
+    rewrite (firstn_app_len (le64 (N.of_nat p))) by exact L1. f_equal.
+    rewrite (firstn_app_len (le64 (lenN v))) by exact L2. f_equal. symmetry. apply firstn_min_len.
+Qed.
+
+(* ---------- the invariant ---------- *)
+
+Definition replay_nf (rs : list (nat * bytes)) (d : bytes) : bytes := fold_left apply_rec (rev rs) d.
+
+Lemma replay_nf_app a b d : replay_nf (a ++ b) d = replay_nf a (replay_nf b d).
+Proof. unfold replay_nf. now rewrite rev_app_distr, fold_left_app. Qed.
+
+Definition Good (d0 : bytes) (st : fstate) : Prop :=
+  exists rs, wal st = encs rs /\ Forall ok_rec rs /\ replay_nf rs (data st) = d0.
+
+Definition Safe (d0 : bytes) (st : fstate) : Prop :=
+  recover walrev_fixed st = {| data := d0; wal := [] |}.
+
+Lemma safe_tail d0 st rs t :
+  wal st = encs rs ++ t -> incomplete t -> Forall ok_rec rs -> replay_nf rs (data st) = d0 -> Safe d0 st.
+Proof.
+  intros Hw Ht Hok Hr. unfold Safe, recover, replay. cbn [w_newest_first walrev_fixed].
+  rewrite Hw, records_encs by assumption. unfold replay_nf in Hr. now rewrite Hr.
+Qed.
+
+Lemma good_safe d0 st : Good d0 st -> Safe d0 st.
+Proof.
+  intros (rs & Hw & Hok & Hr). apply (safe_tail d0 st rs []); [now rewrite app_nil_r|apply incomplete_nil|exact Hok|exact Hr].
+Qed.
+
+(* a record that describes the current content may be appended (completely or torn) *)
+Lemma log_safe d0 st p v k j :
+  Good d0 st -> ok_rec (p, v) -> apply_rec (data st) (p, v) = data st -> k < 3 ->
+  Safe d0 (crash st (log_calls p v) k j).
+Proof.
+  intros (rs & Hw & Hok & Hr) Hpv Hsame Hk.
+  destruct (log_crash st p v k j Hk) as [m ->].
+  destruct (Nat.ltb_spec m (length (enc_rec p v))) as [Hm|Hm].
+  - apply (safe_tail d0 _ rs (firstn m (enc_rec p v))); cbn [data wal];
+      [now rewrite Hw|now apply prefix_incomplete|exact Hok|exact Hr].
+  - rewrite firstn_all2 by exact Hm.
+    apply (safe_tail d0 _ (rs ++ [(p, v)]) []); cbn [data wal].
+    + rewrite Hw, encs_app, app_nil_r. cbn [encs map concat fst snd]. now rewrite app_nil_r.
+    + apply incomplete_nil.
+    + apply Forall_app; split; [exact Hok|now constructor].
+    + rewrite replay_nf_app. unfold replay_nf at 2. cbn [rev app fold_left]. rewrite Hsame. exact Hr.
+Qed.
+
+Lemma log_good d0 st p v :
+  Good d0 st -> ok_rec (p, v) -> apply_rec (data st) (p, v) = data st ->
+  Good d0 (run_calls st (log_calls p v)).
+Proof.
+  intros (rs & Hw & Hok & Hr) Hpv Hsame. rewrite log_done. exists (rs ++ [(p, v)]). cbn [data wal]. repeat split.
+  - rewrite Hw, encs_app. cbn [encs map concat fst snd]. now rewrite app_nil_r.
+  - apply Forall_app; split; [exact Hok|now constructor].
+  - rewrite replay_nf_app. unfold replay_nf at 2. cbn [rev app fold_left]. rewrite Hsame. exact Hr.
+Qed.
+
+(* Good is about the log being a valid undo log of the current data; the data call that follows
+   must be undone by the records appended for it *)
+Lemma good_data_call d0 st (extra : list (nat * bytes)) (rs : list (nat * bytes)) d' :
+  wal st = encs (rs ++ extra) -> Forall ok_rec (rs ++ extra) ->
+  replay_nf extra d' = replay_nf extra (data st) -> replay_nf (rs ++ extra) (data st) = d0 ->
+  Good d0 {| data := d'; wal := wal st |}.
+Proof.
+  intros Hw Hok Hu Hr. exists (rs ++ extra). cbn [data wal]. repeat split; [exact Hw|exact Hok|].
+  rewrite replay_nf_app in *. now rewrite Hu.
+Qed.
+
+(* ---------- one operation ---------- *)
+
+Definition bound : N := 1152921504606846976.   (* 2^60 *)
+
+Fixpoint wp (d : bytes) (ops : list op) : Prop :=
+  (N.of_nat (length d) < bound)%N /\
+  match ops with
+  | [] => True
+  | OWrite pos bs :: r => pos <= length d /\ wp (write_at d pos bs) r
+  | OResize n :: r => wp (set_len d n) r
+  | OFlush :: r => wp d r
+  end.
+
+Lemma wp_bound d ops : wp d ops -> (N.of_nat (length d) < bound)%N.
+Proof. destruct ops; intros H; apply H. Qed.
+
+Definition next_data (d : bytes) (o : op) : bytes :=
+  match o with
+  | OWrite pos bs => write_at d pos bs
+  | OResize n => set_len d n
+  | OFlush => d
+  end.
+
+Lemma run_log_data st p v : data (run_calls st (log_calls p v)) = data st.
+Proof. now rewrite log_done. Qed.
+
+Lemma small_ok p (v : bytes) : (N.of_nat p < bound)%N -> (N.of_nat (length v) < bound)%N -> ok_rec (p, v).
+Proof. unfold ok_rec, bound, two64, lenN. cbn [fst snd]. lia. Qed.
+
+Lemma slice_of_length d a b : b <= length d -> length (slice_of d a b) = b - a.
+Proof. intros H. unfold slice_of. rewrite firstn_length, skipn_length. lia. Qed.
+
+Lemma write_at_same d pos e : pos <= e -> e <= length d -> write_at d pos (slice_of d pos e) = d.
+Proof.
+  intros H1 H2. apply (list_ext x00).
+  - rewrite write_at_length by lia. rewrite slice_of_length by lia. lia.
+  - intros i Hi. rewrite nth_write_at by lia. rewrite slice_of_length by lia.
+    destruct (Nat.ltb_spec i pos); [reflexivity|].
+    destruct (Nat.ltb_spec i (pos + (e - pos))); [|reflexivity].
+    unfold slice_of. rewrite nth_firstn_lt by lia. rewrite nth_skipn_add. f_equal. lia.
+Qed.
+
+Lemma apply_rec_nonempty d p (v : bytes) : 0 < length v -> apply_rec d (p, v) = write_at d p v.
+Proof. destruct v; cbn [length]; [lia|reflexivity]. Qed.
+Lemma apply_rec_nil d p : apply_rec d (p, []) = set_len d p.
+Proof. reflexivity. Qed.
+Lemma length_zero_nil {A} (l : list A) : length l = 0 -> l = [].
+Proof. destruct l; [reflexivity|discriminate]. Qed.
+
+(* the result of one complete operation and the safety of all its crash cuts *)
+Lemma op_write d0 st pos bs :
+  Good d0 st -> pos <= length (data st) -> (N.of_nat (length (data st)) < bound)%N ->
+  (N.of_nat (length (write_at (data st) pos bs)) < bound)%N ->
+  let cs := calls_of walrev_fixed (data st) (OWrite pos bs) in
+  (forall k j, Safe d0 (crash st cs k j)) /\
+  Good d0 (run_calls st cs) /\ data (run_calls st cs) = write_at (data st) pos bs.
+Proof.
+  intros HG Hpos Hb Hb2 cs. subst cs. set (d := data st) in *. set (len := length d) in *.
+  unfold calls_of. cbn [w_skip_empty w_log_growth walrev_fixed andb]. fold d. fold len.
+  destruct bs as [|b0 bs'] eqn:Ebs.
+  { (* empty write: no calls *)
+    cbn [length]. split; [|split].
+    - intros k j. rewrite crash_all by (cbn; lia). cbn. now apply good_safe.
+    - exact HG.
+    - cbn. fold d. now rewrite write_at_nil. }
+  rewrite <- Ebs in *. assert (Hne : 0 < length bs) by (rewrite Ebs; cbn; lia). clear Ebs b0 bs'.
+  set (e := pos + length bs) in *.
+  set (old := slice_of d pos (Nat.min len e)).
+  assert (Hnew : length (write_at d pos bs) = Nat.max len e) by (apply write_at_length; exact Hpos).
+  assert (Hold : length old = Nat.min len e - pos) by (unfold old; apply slice_of_length; lia).
+  assert (OKold : ok_rec (pos, old)) by (apply small_ok; rewrite ?Hold; lia).
+  assert (OKlen : ok_rec (len, [])) by (apply small_ok; cbn [length]; unfold bound in *; lia).
+  assert (SameOld : apply_rec d (pos, old) = d).
+  { destruct (Nat.eq_dec (length old) 0) as [Z|Z].
+    - rewrite (length_zero_nil old Z), apply_rec_nil. assert (pos = len) by lia. subst pos. apply set_len_same.
+    - rewrite apply_rec_nonempty by lia. unfold old. apply write_at_same; lia. }
+  assert (SameLen : apply_rec d (len, []) = d) by (cbn; apply set_len_same).
+  (* the undo of a torn data write *)
+  assert (Undo : forall j extra,
+             extra = (if Nat.ltb pos len && Nat.ltb len e then [(len, [])] else []) ++ [(pos, old)] ->
+             replay_nf extra (write_at d pos (firstn j bs)) = d).
+  { intros j extra ->. pose proof (undo_write d pos bs j Hpos) as U. fold len e old in U.
+    destruct (Nat.ltb_spec pos len) as [P|P]; destruct (Nat.ltb_spec len e) as [Q|Q]; cbn [andb app].
+    - (* straddling *)
+      unfold replay_nf. cbn [rev app fold_left].
+      rewrite (apply_rec_nonempty _ pos old) by lia. rewrite apply_rec_nil. exact U.
+    - (* in place *)
+      unfold replay_nf. cbn [rev app fold_left].
+      rewrite apply_rec_nonempty by lia.
+      pose proof (undo_write_inplace d pos bs j ltac:(fold len e; lia)) as V.
+      unfold old. replace (Nat.min len e) with e by lia. exact V.
+    - (* append at the end *)
+      assert (pos = len) by lia. subst pos.
+      unfold replay_nf. cbn [rev app fold_left].
+      assert (Z : old = []) by (apply length_zero_nil; lia).
+      rewrite Z in *. rewrite apply_rec_nil. rewrite write_at_nil in U. exact U.
+    - lia. }
+  set (growth := Nat.ltb pos len && Nat.ltb len e) in *.
+  set (La := if growth then log_calls len [] else []).
+  set (sta := run_calls st La).
+  assert (Ga : Good d0 sta /\ data sta = d).
+  { unfold sta, La. destruct growth; [|split; [exact HG|reflexivity]].
+    split; [apply log_good; assumption|apply run_log_data]. }
+  destruct Ga as [Ga Da].
+  set (stb := run_calls sta (log_calls pos old)).
+  assert (Gb : Good d0 stb) by (apply log_good; [exact Ga|exact OKold|rewrite Da; exact SameOld]).
+  assert (Db : data stb = d) by (unfold stb; rewrite run_log_data; exact Da).
+  (* the log after both sequences *)
+  destruct HG as (rs & Hw & Hok & Hr).
+  set (extra := (if growth then [(len, [])] else []) ++ [(pos, old)]).
+  assert (Wb : wal stb = encs (rs ++ extra)).
+  { unfold stb, sta, La, extra. rewrite log_done. cbn [wal]. destruct growth.
+    - rewrite log_done. cbn [wal]. rewrite Hw, !encs_app. cbn [encs map concat fst snd app]. now rewrite !app_nil_r, <- app_assoc.
+    - cbn [run_calls fold_left]. rewrite Hw, encs_app. cbn [encs map concat fst snd app]. now rewrite app_nil_r. }
+  assert (OKb : Forall ok_rec (rs ++ extra)).
+  { apply Forall_app; split; [exact Hok|]. unfold extra.
+    destruct growth; cbn [app]; [apply Forall_cons; [exact OKlen|]|]; (apply Forall_cons; [exact OKold|apply Forall_nil]). }
+  assert (Rb : replay_nf (rs ++ extra) d = d0).
+  { rewrite replay_nf_app. replace (replay_nf extra d) with d; [exact Hr|].
+    unfold extra. destruct growth; unfold replay_nf; cbn [rev app fold_left]; now rewrite ?SameOld, ?SameLen. }
+  assert (Torn : forall j, Good d0 {| data := write_at d pos (firstn j bs); wal := wal stb |}).
+  { intros j. apply (good_data_call d0 stb extra rs); [exact Wb|exact OKb| |rewrite Db; exact Rb].
+    rewrite Db. rewrite (Undo j extra eq_refl).
+    unfold extra. destruct growth; unfold replay_nf; cbn [rev app fold_left]; now rewrite ?SameOld, ?SameLen. }
+  assert (Full : run_calls stb [DataWrite pos bs] = {| data := write_at d pos bs; wal := wal stb |}).
+  { cbn [run_calls fold_left apply_sys]. now rewrite Db. }
+  split; [|split].
+  - intros k j. change (calls_of walrev_fixed d (OWrite pos bs)) with (calls_of walrev_fixed d (OWrite pos bs)).
+    rewrite crash_app. fold La.
+    destruct (Nat.ltb_spec k (length La)) as [Ka|Ka].
+    + unfold La in *. destruct growth; [|cbn in Ka; lia].
+      apply log_safe; [exists rs; auto|exact OKlen|exact SameLen|cbn in Ka; lia].
+    + fold sta. rewrite crash_app.
+      destruct (Nat.ltb_spec (k - length La) (length (log_calls pos old))) as [Kb|Kb].
+      * apply log_safe; [exact Ga|exact OKold|rewrite Da; exact SameOld|cbn in Kb; lia].
+      * fold stb. set (k2 := k - length La - length (log_calls pos old)).
+        destruct k2 as [|k2'] eqn:E2.
+        -- unfold crash. cbn [firstn nth_error run_calls fold_left apply_torn]. rewrite Db.
+           apply good_safe, Torn.
+        -- rewrite crash_all by (cbn; lia). rewrite Full.
+           apply good_safe. specialize (Torn (length bs)). now rewrite firstn_all in Torn.
+  - rewrite !run_calls_app. fold La sta stb. rewrite Full.
+    specialize (Torn (length bs)). now rewrite firstn_all in Torn.
+  - rewrite !run_calls_app. fold La sta stb. now rewrite Full.
+Qed.
+
+Lemma op_resize d0 st n :
+  Good d0 st -> (N.of_nat (length (data st)) < bound)%N -> (N.of_nat n < bound)%N ->
+  let cs := calls_of walrev_fixed (data st) (OResize n) in
+  (forall k j, Safe d0 (crash st cs k j)) /\
+  Good d0 (run_calls st cs) /\ data (run_calls st cs) = set_len (data st) n.
+Proof.
+  intros HG Hb Hn cs. subst cs. set (d := data st) in *. set (len := length d) in *.
+  unfold calls_of. cbn [w_log_growth walrev_fixed]. fold d. fold len.
+  (* the single undo record of a resize *)
+  set (r := if Nat.ltb n len then (n, skipn n d) else (len, @nil byte)).
+  assert (Ecalls : (if Nat.ltb n len then log_calls n (skipn n d) else log_calls len []) = log_calls (fst r) (snd r))
+    by (unfold r; destruct (Nat.ltb n len); reflexivity).
+  rewrite Ecalls.
+  assert (OKr : ok_rec r).
+  { unfold r. destruct (Nat.ltb_spec n len); apply small_ok; cbn [length]; rewrite ?skipn_length; unfold bound in *; lia. }
+  assert (Same : apply_rec d r = d).
+  { unfold r. destruct (Nat.ltb_spec n len) as [L|L].
+    - rewrite apply_rec_nonempty by (rewrite skipn_length; fold len; lia).
+      unfold write_at. rewrite skipn_length. fold len.
+      replace (n + (len - n)) with (length d) by (fold len; lia). rewrite skipn_all.
+      rewrite app_nil_r. apply firstn_skipn.
+    - rewrite apply_rec_nil. apply set_len_same. }
+  assert (Undo : apply_rec (set_len d n) r = d).
+  { unfold r. destruct (Nat.ltb_spec n len) as [L|L].
+    - rewrite apply_rec_nonempty by (rewrite skipn_length; fold len; lia). apply undo_shrink. fold len. lia.
+    - rewrite apply_rec_nil. apply undo_grow. fold len. lia. }
+  set (sta := run_calls st (log_calls (fst r) (snd r))).
+  assert (Ga : Good d0 sta) by (apply log_good; [exact HG|destruct r; exact OKr|destruct r; exact Same]).
+  assert (Da : data sta = d) by apply run_log_data.
+  destruct HG as (rs & Hw & Hok & Hr).
+  assert (Wa : wal sta = encs (rs ++ [r])).
+  { unfold sta. rewrite log_done. cbn [wal]. rewrite Hw, encs_app. cbn [encs map concat]. now rewrite app_nil_r. }
+  assert (After : Good d0 {| data := set_len d n; wal := wal sta |}).
+  { exists (rs ++ [r]). cbn [data wal]. repeat split; [exact Wa|apply Forall_app; split; [exact Hok|now constructor]|].
+    rewrite replay_nf_app. unfold replay_nf at 2. cbn [rev app fold_left]. rewrite Undo. exact Hr. }
+  assert (Full : run_calls sta [DataSetLen n] = {| data := set_len d n; wal := wal sta |}).
+  { cbn [run_calls fold_left apply_sys]. now rewrite Da. }
+  split; [|split].
+  - intros k j. rewrite crash_app.
+    destruct (Nat.ltb_spec k (length (log_calls (fst r) (snd r)))) as [K|K].
+    + apply log_safe; [exists rs; auto|destruct r; exact OKr|destruct r; exact Same|cbn in K; lia].
+    + fold sta. destruct (k - length (log_calls (fst r) (snd r))) as [|k2] eqn:E2.
+      * unfold crash. cbn [firstn nth_error run_calls fold_left apply_torn]. now apply good_safe.
+      * rewrite crash_all by (cbn; lia). rewrite Full. now apply good_safe.
+  - rewrite run_calls_app. fold sta. rewrite Full. exact After.
+  - rewrite run_calls_app. fold sta. now rewrite Full.
+Qed.
+
+Lemma op_flush d0 st :
+  Good d0 st ->
+  let cs := calls_of walrev_fixed (data st) OFlush in
+  (forall j, Safe d0 (crash st cs 0 j)) /\
+  Good (data st) (run_calls st cs) /\ data (run_calls st cs) = data st.
+Proof.
+  intros HG cs. subst cs. cbn [calls_of]. split; [|split].
+  - intros j. unfold crash. cbn. now apply good_safe.
+  - cbn [run_calls fold_left apply_sys]. exists []. cbn [data wal]. repeat split; constructor.
+  - reflexivity.
+Qed.
+
+(* ---------- all operation lists, all cuts ---------- *)
+
+(* the committed content a crash at call index k must recover: the content at the last
+   flush completed before the cut *)
+Fixpoint expect (d0 : bytes) (st : fstate) (ops : list op) (k : nat) : bytes :=
+  match ops with
+  | [] => d0
+  | o :: r =>
+    let cs := calls_of walrev_fixed (data st) o in
+    if Nat.ltb k (length cs) then d0
+    else
+      let st' := run_calls st cs in
+      expect (match o with OFlush => data st' | _ => d0 end) st' r (k - length cs)
+  end.
+
+Theorem recover_restores : forall ops st d0 k j,
+  Good d0 st -> wp (data st) ops ->
+  Safe (expect d0 st ops k) (crash st (trace walrev_fixed st ops) k j).
+Proof.
+  induction ops as [|o r IH]; intros st d0 k j HG Hwp.
+  - cbn [trace expect]. rewrite crash_all by (cbn; lia). cbn. now apply good_safe.
+  - cbn [trace expect]. rewrite crash_app.
+    set (cs := calls_of walrev_fixed (data st) o).
+    destruct (Nat.ltb_spec k (length cs)) as [K|K].
+    + destruct o as [pos bs|n|].
+      * destruct Hwp as (Hb & Hpos & Hnext).
+        apply (op_write d0 st pos bs HG Hpos Hb (wp_bound _ _ Hnext)).
+      * destruct Hwp as (Hb & Hnext).
+        pose proof (wp_bound _ _ Hnext) as B. rewrite set_len_length in B.
+        apply (op_resize d0 st n HG Hb B).
+      * unfold cs in K. cbn in K. assert (k = 0) by lia. subst k.
+        apply (op_flush d0 st HG).
+    + destruct o as [pos bs|n|].
+      * destruct Hwp as (Hb & Hpos & Hnext).
+        destruct (op_write d0 st pos bs HG Hpos Hb (wp_bound _ _ Hnext)) as (_ & G' & D').
+        apply IH; [exact G'|]. fold cs in D'. rewrite D'. exact Hnext.
+      * destruct Hwp as (Hb & Hnext).
+        pose proof (wp_bound _ _ Hnext) as B. rewrite set_len_length in B.
+        destruct (op_resize d0 st n HG Hb B) as (_ & G' & D').
+        apply IH; [exact G'|]. fold cs in D'. rewrite D'. exact Hnext.
+      * destruct Hwp as (Hb & Hnext).
+        destruct (op_flush d0 st HG) as (_ & G' & D').
+        apply IH; [exact G'|]. fold cs in D'. rewrite D'. exact Hnext.
+Qed.
+
+(* starting from a committed file with an empty log *)
+Corollary recover_from_committed d0 ops k j :
+  wp d0 ops ->
+  recover walrev_fixed (crash {| data := d0; wal := [] |} (trace walrev_fixed {| data := d0; wal := [] |} ops) k j)
+  = {| data := expect d0 {| data := d0; wal := [] |} ops k; wal := [] |}.
+Proof.
+  intros H. apply recover_restores; [|exact H].
+  exists []. cbn [data wal]. repeat split; constructor.
+Qed.
+
+(* a transaction without flush: every cut recovers the content before it *)
+Fixpoint no_flush (ops : list op) : bool :=
+  match ops with [] => true | OFlush :: _ => false | _ :: r => no_flush r end.
+
+Lemma expect_no_flush ops : no_flush ops = true -> forall d0 st k, expect d0 st ops k = d0.
+Proof.
+  induction ops as [|o r IH]; intros H d0 st k; cbn [expect]; [reflexivity|].
+  destruct (Nat.ltb k (length (calls_of walrev_fixed (data st) o))); [reflexivity|].
+  destruct o; cbn [no_flush] in H; try discriminate; apply IH; exact H.
+Qed.
+
+(* ---------- the defects of the pre-fix code ---------- *)
+Definition st0 (d : bytes) := {| data := d; wal := [] |}.
+
+(* (a) records replayed oldest first: a region written twice keeps its intermediate content *)
+Lemma pinned_replay_order :
+  let d0 := [x01; x02; x03; x04] in
+  let ops := [OWrite 1 [x0a]; OWrite 1 [x0b]] in
+  let rv := {| w_newest_first := false; w_log_growth := true; w_skip_empty := true |} in
+  data (recover rv (crash (st0 d0) (trace rv (st0 d0) ops) 8 0)) = [x01; x0a; x03; x04].
+Proof. vm_compute. reflexivity. Qed.
+
+(* (b) growing the file is not undone *)
+Lemma pinned_growth :
+  let d0 := [x01; x02] in
+  let rv := {| w_newest_first := true; w_log_growth := false; w_skip_empty := true |} in
+  data (recover rv (crash (st0 d0) (trace rv (st0 d0) [OResize 4]) 4 0)) = [x01; x02; x00; x00].
+Proof. vm_compute. reflexivity. Qed.
+
+(* (c) an empty write inside the file truncates it at recovery *)
+Lemma pinned_empty_write :
+  let d0 := [x01; x02; x03; x04] in
+  let rv := {| w_newest_first := true; w_log_growth := true; w_skip_empty := false |} in
+  data (recover rv (crash (st0 d0) (trace rv (st0 d0) [OWrite 2 []]) 4 0)) = [x01; x02].
+Proof. vm_compute. reflexivity. Qed.
+
+(* non-vacuity: a transaction with in-place, straddling and appending writes, shrink and growth *)
+Example wp_example :
+  let d0 := [x01; x02; x03; x04; x05; x06] in
+  let ops := [OWrite 1 [x0a; x0b]; OWrite 5 [x0c; x0d; x0e]; OResize 3; OWrite 3 [x0f]; OResize 9; OWrite 2 []] in
+  wp d0 ops /\ no_flush ops = true /\
+  forall k j, k <= 30 -> j <= 3 ->
+    recover walrev_fixed (crash (st0 d0) (trace walrev_fixed (st0 d0) ops) k j) = st0 d0.
+Proof.
+  cbv zeta. split; [|split].
+  - cbn [wp length write_at set_len firstn skipn app Nat.add Nat.sub repeat]. unfold bound. repeat split; lia.
+  - reflexivity.
+  - intros k j Hk Hj.
+    assert (W : wp [x01; x02; x03; x04; x05; x06]
+                   [OWrite 1 [x0a; x0b]; OWrite 5 [x0c; x0d; x0e]; OResize 3; OWrite 3 [x0f]; OResize 9; OWrite 2 []]).
+    { cbn [wp length write_at set_len firstn skipn app Nat.add Nat.sub repeat]. unfold bound. repeat split; lia. }
+    unfold st0. rewrite (recover_from_committed _ _ k j W). f_equal. now apply expect_no_flush.
+Qed.
